@@ -42,13 +42,15 @@ CHECKS = {
              "with Decompose's replay, as coded) returns unit-lower L and upper U with L*U = A entry by entry, provided no "
              "pivot is zero (C03_doolittle_factors_reproduce_A; nested loop invariants + the field identity "
              "C03_defining_equations_give_LU_eq_A); LuDecompositionDoolittleInPlace likewise, under its documented "
-             "contract that fill-in slots hold zero on entry (C03_doolittle_in_place_factors_reproduce_A). The two Mozart "
-             "algorithms are modelled the same way and tied, not yet proved. Tie: the library's own templates instantiated over the prime "
+             "contract that fill-in slots hold zero on entry (C03_doolittle_in_place_factors_reproduce_A); "
+             "LuDecompositionMozartInPlace (right-looking elimination: Schur-complement invariant, pattern closed under its "
+             "fill-in) likewise (C03_mozart_in_place_factors_reproduce_A). LuDecompositionMozart (separate L and U) is "
+             "modelled the same way and tied, not yet proved. Tie: the library's own templates instantiated over the prime "
              "field Z_p (exact) vs the extracted model over Z_p: patterns and every L/U value per block, all patterns n<=3 "
              "(quick) / n<=4 (thorough) x 4 algorithms + random n<=8, CSR/CSC x standard/vector L<=4, partial groups, garbage "
              "prior L/U. Oracle on the implementation: L unit lower, U upper, L*U == A over Z_p, independence from prior contents.",
-        note="PARTIAL: full proofs for Doolittle (and, through C18_lu_decomposition, its JIT twin) and DoolittleInPlace; "
-             "Mozart and MozartInPlace are validated by the exact Z_p tie and oracle only. The encoding of the index streams as parallel arrays "
+        note="PARTIAL: full proofs for Doolittle (and, through C18_lu_decomposition, its JIT twin), DoolittleInPlace and "
+             "MozartInPlace; Mozart (separate storage) is validated by the exact Z_p tie and oracle only. The encoding of the index streams as parallel arrays "
              "is not modelled (the model fuses construction and replay). Trusted: Coq kernel, extraction, harness, Zp class.",
         technique="Coq proof (loop invariants over the factorisation, any field) + exact-field differential tie of the real templates",
         ref="6 C03"),
@@ -56,12 +58,12 @@ CHECKS = {
         text="Coq: for every field, size, triangular patterns and L, U with non-zero diagonal and L*U = A, the modelled "
              "forward/backward substitution of LinearSolver and LinearSolverInPlace returns x with A x = b "
              "(C04_solve_gives_Ax_eq_b, C04_solve_in_place_gives_Ax_eq_b; induction over rows); for the in-place Doolittle pair "
-             "the premise is discharged: factor-then-solve gives A x = b with no hypothesis on the factors "
-             "(C04_doolittle_in_place_factor_then_solve). Tie: real "
+             "pairs (Doolittle and Mozart) the premise is discharged: factor-then-solve gives A x = b with no hypothesis on "
+             "the factors (C04_doolittle_in_place_factor_then_solve, C04_mozart_in_place_factor_then_solve). Tie: real "
              "LinearSolver/LinearSolverInPlace templates over Z_p vs extracted model, x per block, same case space as C03 "
              "with random right-hand sides, row-major and grouped dense vectors, padding rows holding garbage. Oracle: "
              "A*x == b over Z_p on the implementation.",
-        note="Premise L*U = A comes from C03: proved there for Doolittle and DoolittleInPlace, tied for the two Mozart algorithms. "
+        note="Premise L*U = A comes from C03: proved there for Doolittle, DoolittleInPlace and MozartInPlace, tied for Mozart. "
              "Trusted: Coq kernel, extraction, harness, Zp class.",
         technique="Coq proof (induction over substitution rows, any field) + exact-field differential tie",
         ref="6 C04"),
